@@ -442,14 +442,18 @@ def run_cfg(prop, tier, seed):
     configs = C15_CONFIGS if tier == 'thorough' else C15_CONFIGS[:C15_QUICK_CONFIGS]
     violations, unexplained, lines, samples = [], [], [], []
     lines_known = []
+    known_hits_units = {}
     pairs = same = differing = 0
     runs_compared = 0
     # quick tier: besides C12/C13 under the first configurations, the matrix unit table under the pre-C++11 language level only — that is where
     # glm compiles the other branch of its ~270 `#if GLM_HAS_INITIALIZER_LISTS` constructor bodies
     extra = [] if tier == 'thorough' else [(uf, [c for c in C15_CONFIGS if c[0] in cs]) for uf, cs in C15_EXTRA_QUICK]
+    def nonsimd(uf, bins):   # C10's second unit configuration (aligned types in a SIMD build) is a semantic switch: not part of this comparison
+        return [x for x in bins if not (uf == 'C10' and '_c1_' in os.path.basename(x))]
     for uf, ufconfigs in [(uf, configs) for uf in unit_files] + extra:
         bins0, err0 = build_units(uf)
         if err0: unexplained.append('default build of %s failed: %s' % (uf, err0[-300:])); continue
+        bins0 = nonsimd(uf, bins0)
         base = os.path.join(CACHE, 'C15_%s_default.units' % uf)
         e = run_bins(bins0, ['trace'], base)
         if e: unexplained.append(e); continue
@@ -459,6 +463,7 @@ def run_cfg(prop, tier, seed):
             binsc, errc = build_units(uf, extra_flags=flags, tag='_' + cname)
             if errc:
                 unexplained.append('configuration %s: units of %s do not compile: %s' % (cname, uf, errc[-300:])); continue
+            binsc = nonsimd(uf, binsc)
             cu = os.path.join(CACHE, 'C15_%s_%s.units' % (uf, cname))
             e = run_bins(binsc, ['trace'], cu)
             if e: unexplained.append(e); continue
@@ -477,6 +482,15 @@ def run_cfg(prop, tier, seed):
             for la, lb in zip(a, b):
                 if la != lb: witness = (la, lb); break
             diffunits = re.findall(r'^CFGDIFF (\S+)', out, flags=re.M) + re.findall(r'^CFGMISSING (\S+)', out, flags=re.M)
+            # a listed finding: these units under these configuration flags (nothing else is excused)
+            kfu = [k for k in known if k.get('unit_regex') and any(fl in flags for fl in k.get('config_flags', ()))]
+            def excused(unit): return next((k for k in kfu if re.search(k['unit_regex'], unit)), None)
+            if kfu:
+                for du in list(diffunits):
+                    k = excused(du)
+                    if k: known_hits_units.setdefault(k['id'], [k, 0, du, cname])[1] += 1; diffunits.remove(du)
+                if witness and excused(witness[0].split()[1] if len(witness[0].split()) > 1 else ''):
+                    witness = next(((la, lb) for la, lb in zip(a, b) if la != lb and not excused(la.split()[1] if len(la.split()) > 1 else '')), None)
             if witness:
                 violations.append(dict(property=prop, kind='result-differs-between-configurations', unit=witness[0].split()[1] if len(witness[0].split()) > 1 else '?',
                                        component=0, configuration=cname, flags=flags, default_line=witness[0][:600], configuration_line=witness[1][:600],
@@ -499,6 +513,8 @@ def run_cfg(prop, tier, seed):
                     la, lb = next(((x, y) for x, y in zip(ref.split('\n'), txt.split('\n')) if x != y), ('', ''))
                     violations.append(dict(property=prop, kind='result-differs-between-optimisation-levels', unit=la.split()[1] if len(la.split()) > 1 else '?', component=0,
                                            configuration=opt, default_line=la[:600], configuration_line=lb[:600], replay='unit binary of %s at %s' % (uf, opt)))
+    for kid, (kf, n, du, cname) in sorted(known_hits_units.items()):
+        lines_known.append('KNOWN-FINDING: property=%s %s (%s; %d traced unit(s) with a different model this run, e.g. %s under %s)' % (prop, kf['what'], kid, n, du, cname))
     known_hits = {}
     hpairs, hlines, hskipped = harness_cfg_compare(configs, seed, unexplained, violations, prop, known, known_hits)
     runs_compared += hlines
